@@ -311,7 +311,7 @@ def model_lines_a(lib, case, rec):
 def correspond_a(ctx):
     rng = ctx.rng
     libs, cases = gen_a(ctx, rng, ctx.scale(6, 25), ctx.scale(40, 120), "c20a")
-    res = identlib.run_cases(ctx, libs, [{"lib": c["lib"], "steps": c["steps"]} for c in cases], shards=ctx.scale(8, 16))[None]
+    res = identlib.run_cases(ctx, libs, [{"lib": c["lib"], "steps": c["steps"]} for c in cases], shards=ctx.scale(8, 16), real_flags=True)[None]
     good = []
     for case, rec in zip(cases, res):
         if rec["error"]:
@@ -1063,7 +1063,7 @@ def search(ctx):
     rng = random.Random(f"c20-search-{ctx.seed}")
     t0 = time.time()
     libs, cases = gen_a(ctx, rng, 8, 60, "c20s")
-    res = identlib.run_cases(ctx, libs, [{"lib": c["lib"], "steps": c["steps"]} for c in cases], shards=12)[None]
+    res = identlib.run_cases(ctx, libs, [{"lib": c["lib"], "steps": c["steps"]} for c in cases], shards=12, real_flags=True)[None]
     for case, rec in zip(cases, res):
         if not rec["error"]:
             monitor_a(ctx, case, rec)
